@@ -4,12 +4,15 @@ with a meta.json recording what was confirmed here (from /tmp/seedres/<PROP>_<k>
 import json, os, shutil, sys
 H = os.path.dirname(os.path.dirname(os.path.abspath(__file__)))
 prop, k = sys.argv[1], sys.argv[2]
-src = "/tmp/seed/%s/OUT/%s" % (prop, k)
-res = json.load(open("/tmp/seedres/%s_%s.json" % (prop, k)))
+rnd = sys.argv[3] if len(sys.argv) > 3 else ""
+src = "/tmp/seed%s/%s/OUT/%s" % (rnd, prop, k)
+res = json.load(open("/tmp/seedres%s/%s_%s.json" % (rnd, prop, k)))
+if os.path.exists("/tmp/seedres%s/%s_%s.first.json" % (rnd, prop, k)):      # baseline result of the first (full) run
+    res["baseline"] = json.load(open("/tmp/seedres%s/%s_%s.first.json" % (rnd, prop, k))).get("baseline", {})
 ok = res.get("applies") and res.get("demo_clean", {}).get("rc") == 0 and res.get("demo_patched", {}).get("rc") == 1 and res.get("baseline", {}).get("rc") == 0
 if not ok:
     print("NOT CONFIRMED:", prop, k, {x: res.get(x) for x in ("applies", "demo_clean", "demo_patched", "baseline")}); sys.exit(1)
-dst = os.path.join(H, "seeded", "%s-%s" % (prop, k))
+dst = os.path.join(H, "seeded", "%s-%s%s" % (prop, "r2" if rnd else "", k))
 os.makedirs(dst, exist_ok=True)
 shutil.copy(os.path.join(src, "patch.diff"), dst); shutil.copy(os.path.join(src, "demo.py"), dst)
 try:
@@ -18,7 +21,8 @@ except Exception:
     meta = {}
 out = {
     "property": prop,
-    "origin": "independent sub-agent given only the property text and a scratch worktree",
+    "origin": "independent sub-agent given only the property text and a scratch worktree" + (
+        "; round 2: asked for changes that a small-exhaustive + random-small-N + short-history checker would plausibly miss" if rnd else ""),
     "what_changed": meta.get("what_changed"), "files_changed": meta.get("files_changed"),
     "needs_to_manifest": meta.get("needs_to_manifest"), "why_tests_still_pass": meta.get("why_tests_still_pass"),
     "confirmed_here": {
